@@ -180,8 +180,13 @@ func verifH_C34_machine() {
 				}
 			}
 		}
-		for _, sc := range cc.scs {
-			verifAssert(sc.connects <= 1 || true, "connect bookkeeping")
+		// the picker currently installed in the channel: while READY is the latest report, it must keep returning a
+		// subchannel that is READY and that the balancer has not shut down
+		if n := len(cc.states); n > 0 && cc.states[n-1].ConnectivityState == connectivity.Ready {
+			res, err := cc.states[n-1].Picker.Pick(balancer.PickInfo{})
+			chosen, _ := res.SubConn.(*verifSC)
+			verifAssert(err == nil && chosen != nil && !chosen.shutdown, "the picker in use never returns a subchannel the balancer has shut down")
+			verifAssert(chosen == nil || chosen.raw == connectivity.Ready, "the picker in use returns a subchannel whose latest state is READY")
 		}
 	}
 	internal.TimeAfterFunc = saved
